@@ -525,6 +525,30 @@ func TestC18(t *testing.T) {
 		}
 		rec.Exhaustive("24 valid address texts x 45 wrappings and one-character substitutions by runes congruent modulo 256 / 65536 (quotes, brackets, padding, signs, radix prefixes, digit separators, escaped and doubled separators, full-width digits) through both parsers")
 	}
+	// 3c. component counts: 4..1100 well-formed components (counts congruent to 1, 2, 3 modulo 2^8 included, and the
+	// counts around 2^16 + 1..3): a parser that counts its components in a narrow integer folds those back to a valid
+	// form. Fillers: all "1", all "0" behind a valid head, and a valid address text repeated.
+	for _, f := range []struct{ kind, sep string }{{"group-parse", "/"}, {"indiv-parse", "."}} {
+		counts := []int{}
+		for n := 4; n <= 1100; n++ {
+			counts = append(counts, n)
+		}
+		for _, base := range []int{1 << 16, 1 << 17} {
+			for d := 0; d <= 4; d++ {
+				counts = append(counts, base+d)
+			}
+		}
+		for _, n := range counts {
+			ones := strings.Repeat("1"+f.sep, n-1) + "1"
+			do(c18Case{Kind: f.kind, Text: ones}, true)
+			if n <= 1100 {
+				do(c18Case{Kind: f.kind, Text: "1" + f.sep + "2" + f.sep + "3" + strings.Repeat(f.sep+"1", n-3)}, true)
+				do(c18Case{Kind: f.kind, Text: strings.Repeat("0"+f.sep, n-1) + "1"}, true)
+				do(c18Case{Kind: f.kind, Text: "1" + strings.Repeat(f.sep+"0", n-1)}, true)
+			}
+		}
+	}
+	rec.Exhaustive("every component count 4..1100 (and 2^16, 2^17 + 0..4) of well-formed components, four fillers, both parsers")
 	// 4. malformed strings from a grammar
 	common.Drive(t, rec, func(rt *rapid.T) c18Case {
 		c := c18GenMalformed(rt)
